@@ -1496,7 +1496,11 @@ func (f *frame) siteAsserts(kind, rel, when string, args, results []*sym, st *st
 		if label == "" {
 			label = "s"
 		}
-		vc.oblige(fmt.Sprintf("site@%s#%d", mangleKeep(sc.Callee), ord), label, reach, e.boolExpr(sc.E), pos, sc.Src, sc.Props)
+		t := e.boolExpr(sc.E)
+		vc.oblige(fmt.Sprintf("site@%s#%d", mangleKeep(sc.Callee), ord), label, reach, t, pos, sc.Src, sc.Props)
+		// assert-then-assume: what has been asserted here may be used by everything that follows (each obligation's
+		// script contains only the commands emitted before it, so an assertion never helps to prove itself)
+		vc.assume(reach, t)
 	}
 }
 
@@ -2004,11 +2008,73 @@ func (f *frame) applyCallbackFrame(c *Contract, rel string, args []*sym, pre, st
 	for _, p := range cb.clos.fn.Params {
 		cargs = append(cargs, f.freshOf(p.Type(), "cbarg_"+p.Name(), nil, reach))
 	}
-	envCb := f.calleeEnv(cc, cb.clos.fn, cargs, cb.clos.bindings, pre, pre)
-	f.applyMods(cc.Modifies, envCb, st, reach, rel+"/callback")
-	for _, r := range cc.Records {
-		if k, so, ok := vc.ghostKey(r.Ghost); ok {
-			st.h[k] = vc.fresh("g_"+r.Ghost, so)
+	havoc := func(s *state) {
+		envCb := f.calleeEnv(cc, cb.clos.fn, cargs, cb.clos.bindings, pre, pre)
+		f.applyMods(cc.Modifies, envCb, s, reach, rel+"/callback")
+		for _, r := range cc.Records {
+			if k, so, ok := vc.ghostKey(r.Ghost); ok {
+				s.h[k] = vc.fresh("g_"+r.Ghost, so)
+			}
 		}
+	}
+	// callback invariants of the caller for this site
+	var invs []*Clause
+	if f.c != nil && vc.c != nil {
+		for _, sc := range vc.c.Sites {
+			if sc.Kind == "cbinv" && (sc.Callee == rel) && (sc.Ord < 0 || sc.Ord == f.curOrd) {
+				invs = append(invs, sc)
+				vc.sitesHit[sc]++
+			}
+		}
+	}
+	envAt := func(s *state) *env {
+		e := vc.topEnv(f, s)
+		e.usePoint()
+		for i, a := range args {
+			e.vars[fmt.Sprintf("arg%d", i)] = a
+		}
+		pe := vc.topEnv(f, pre)
+		pe.usePoint()
+		for i, a := range args {
+			pe.vars[fmt.Sprintf("arg%d", i)] = a
+		}
+		pe.entryEnv = pe
+		e.entryEnv = pe
+		return e
+	}
+	name := func(kind string, cl *Clause, i int) (string, string) {
+		label := cl.Label
+		if label == "" {
+			label = fmt.Sprintf("c%d", i)
+		}
+		return fmt.Sprintf("%s@%s#%d", kind, rel, f.curOrd), label
+	}
+	if len(invs) > 0 {
+		// 1. the invariant holds before the call
+		for i, cl := range invs {
+			k, l := name("cbinv-entry", cl, i)
+			vc.oblige(k, l, reach, envAt(pre).boolExpr(cl.E), pos, cl.Src, cl.Props)
+		}
+		// 2. one invocation of the callback, from any state satisfying the invariant, re-establishes it
+		st1 := pre.clone()
+		havoc(st1)
+		for _, cl := range invs {
+			vc.assume(reach, envAt(st1).boolExpr(cl.E))
+		}
+		st2 := st1.clone()
+		var crt types.Type = cb.clos.fn.Signature.Results()
+		if cb.clos.fn.Signature.Results().Len() == 1 {
+			crt = cb.clos.fn.Signature.Results().At(0).Type()
+		}
+		f.applyContract(cc, rel+"/callback", cb.clos.fn, cargs, cb.clos.bindings, st2, reach, pos, crt)
+		for i, cl := range invs {
+			k, l := name("cbinv-keep", cl, i)
+			vc.oblige(k, l, reach, envAt(st2).boolExpr(cl.E), pos, cl.Src, cl.Props)
+		}
+	}
+	// 3. afterwards: whatever the callback may modify has changed, and the invariant holds
+	havoc(st)
+	for _, cl := range invs {
+		vc.assume(reach, envAt(st).boolExpr(cl.E))
 	}
 }
